@@ -14,6 +14,7 @@ mod cbin;
 mod c11;
 mod c13;
 mod c14;
+mod c20;
 mod c12;
 
 use rng::Rng;
@@ -52,6 +53,7 @@ fn main() {
         "C12" => c12::cases(&mut rng, count, tier),
         "C13" => c13::cases(&mut rng, count, tier),
         "C14" => c14::cases(&mut rng, count, tier),
+        "C20" => c20::cases(&mut rng, count, tier),
         _ => {
             eprintln!("unknown property {prop}");
             std::process::exit(2);
